@@ -74,7 +74,7 @@ claim("C04", "exploration",
 claim("C20", "exploration",
       "stateful property-based testing: the writer script with WaitForAcknowledgments commands at any point; the completion channel and the return values of the public sync / async calls are compared with a model",
       "Writer level (deterministic): generated histories of writes, ACKNACKs with bases around last / last+1 / last+2, reader match and loss, and WaitForAcknowledgments commands (also repeated) against the real Writer; after every step the completion channel must hold a token exactly when the model says that every reliable reader matched at the call has acknowledged everything written before the call or was lost - never earlier, and in the same step when already true at the call. "
-      "API level: a real DataWriter wired to the rig Writer: async_wait_for_acknowledgments polled by a strict executor (only when woken) must be Pending exactly while the model's condition is false and Ready(true) as soon as the writer has processed the deciding event; the blocking form runs on a helper thread in three timing-robust shapes (already true -> true; never true -> false not before the requested 150 ms; becomes true during the wait -> true).",
+      "API level: a real DataWriter wired to the rig Writer: async_wait_for_acknowledgments polled by a strict executor (only when woken) must be Pending exactly while the model's condition is false and Ready(true) as soon as the writer has processed the deciding event (in part of the cases the first poll meets a full command queue); the blocking form runs on a helper thread in three timing-robust shapes (already true -> true; never true -> false not before the requested 150 ms; becomes true during the wait -> true).",
       "Trusted: the model in incrate/wscript.rs and incrate/c20_waitack.rs. The blocking shapes use real time with wide margins (10 s for 'promptly', 145 ms lower bound for a 150 ms timeout).",
       "DESIGN.md section 2, C20")
 
@@ -110,7 +110,7 @@ claim("C18", "exploration",
       "model-based property-based testing: permissions and governance documents are generated from a grammar, signed in-process with the shipped Permissions CA key and loaded by the real access control plugin; decisions are compared with a reference evaluator over the generator's AST; signed documents are altered byte by byte, re-signed by another CA, and spliced",
       "Scenario 0: generated governance (domain rules with id / range / open-range sets, topic rules with patterns and access-control flags) and permissions documents (grants for this / another subject, valid / expired / not yet valid, allow / deny rules with domain sets, publish / subscribe criteria with topic patterns * ? [a-c] [!a] and optional partition lists, default ALLOW / DENY), S/MIME-signed like sign-test-configurations.sh, loaded through validate_local_permissions / validate_remote_permissions via data: URIs; 16 queries per case through check_create_datawriter / datareader / topic and check_remote_datawriter / datareader / topic. The reference evaluator implements: governance first matching topic rule decides protected / unprotected; otherwise first applicable rule of the subject's first currently valid grant, else the grant's default; own pattern matcher; domain-set membership; loading must fail exactly when no domain rule covers the domain or no valid grant names the subject. "
       "Scenario 1: one byte of the signed content of either document altered (must be rejected), any byte anywhere altered (counted), document signed by another CA of the same name (must be rejected), content of another validly signed document under this signature (must be rejected).",
-      "Trusted: the reference evaluator and pattern matcher in incrate/c18_access.rs; openssl for producing signatures. Every entity is in the default partition (the plugin API has no partitions). Topic-kind queries are asserted only when the read and write flags of the topic rule agree. Validity windows are decades away from the wall clock.",
+      "Trusted: the reference evaluator and pattern matcher in incrate/c18_access.rs; openssl for producing signatures. Every entity is in the default partition (the plugin API has no partitions). Topic-kind queries are asserted only when the read and write flags of the topic rule agree. The plugin reads the wall clock for validity windows: the deciding bound is decades away, or 45 min - 10 h from the clock read at the start of the case and written with an explicit UTC offset.",
       "DESIGN.md section 2, C18")
 
 claim("C19", "exploration",
